@@ -618,7 +618,7 @@ Proof.
       rewrite !orb_false_iff in Hf. destruct Hf as [[[[A B] C] D] E].
       rewrite C, D, E in Hd. apply negb_false_iff, is_equal_veq in B.
       rewrite (members_unchanged_eq _ _ A) in Hd.
-      destruct Hd as [X|[X|[X|[X|X]]]]; congruence.
+      destruct Hd as [X|[X|[X|[X|X]]]]; try (apply X; reflexivity). apply X; exact B.
 Qed.
 
 (** * A merge of a view with itself (or with its own snapshot) changes nothing *)
@@ -770,3 +770,134 @@ Lemma ex_merge_values :
   snd (view_merge 0 0 0 ex_a ex_b) = true /\
   is_concurrent (vw_vv ex_a) (vw_vv ex_b) = true.
 Proof. vm_compute. auto. Qed.
+
+(** * The version vector of a merge does not depend on the order, the strategy or the skew setting *)
+Lemma VVin_no_members v : VVin v -> vw_members v = ∅ -> vw_vv v = ∅.
+Proof.
+  intros Hin He. apply map_eq. intros k. rewrite lookup_empty.
+  destruct (vw_vv v !! k) as [c|] eqn:E; [|reflexivity].
+  destruct (Hin k) as [s Hs]; [eexists; exact E|]. rewrite He, lookup_empty in Hs. discriminate.
+Qed.
+
+Lemma vmerge_empty_l (a : vv) : vmerge ∅ a = a.
+Proof.
+  rewrite vmerge_union. apply map_eq. intros k. unfold vmax_union. rewrite lookup_union_with, lookup_empty.
+  destruct (a !! k); reflexivity.
+Qed.
+
+Theorem merge_vv_value sk st now v o :
+  VVin v -> CapOK (fst (view_merge sk st now v o)) -> vw_members o <> ∅ ->
+  vw_vv (fst (view_merge sk st now v o)) = vmerge (vw_vv v) (vw_vv o).
+Proof.
+  intros Hin Hcap Hne. rewrite view_merge_vv by (intros H; apply map_size_empty_inv in H; contradiction).
+  rewrite (merge_inner_vv sk st now) by assumption. reflexivity.
+Qed.
+
+Theorem merge_vv_comm sk st now sk' st' now' a b :
+  VVin a -> VVin b ->
+  CapOK (fst (view_merge sk st now a b)) -> CapOK (fst (view_merge sk' st' now' b a)) ->
+  vw_vv (fst (view_merge sk st now a b)) = vw_vv (fst (view_merge sk' st' now' b a)).
+Proof.
+  intros Ha Hb Ca Cb.
+  destruct (o_empty_dec b) as [Eb|Eb]; destruct (o_empty_dec a) as [Ea|Ea].
+  - rewrite !view_merge_empty by assumption. cbn [fst]. rewrite (VVin_no_members a), (VVin_no_members b) by assumption. reflexivity.
+  - rewrite (view_merge_empty sk st now a b) by assumption. cbn [fst].
+    rewrite merge_vv_value; [|assumption|assumption|intros H; rewrite H, map_size_empty in Ea; congruence].
+    rewrite (VVin_no_members b) by assumption. rewrite vmerge_empty_l. reflexivity.
+  - rewrite (view_merge_empty sk' st' now' b a) by assumption. cbn [fst].
+    rewrite merge_vv_value; [|assumption|assumption|intros H; rewrite H, map_size_empty in Eb; congruence].
+    rewrite (VVin_no_members a) by assumption. rewrite vmerge_empty_l. reflexivity.
+  - assert (Na : vw_members a <> ∅) by (intros H; rewrite H, map_size_empty in Ea; congruence).
+    assert (Nb : vw_members b <> ∅) by (intros H; rewrite H, map_size_empty in Eb; congruence).
+    rewrite (merge_vv_value sk st now a b), (merge_vv_value sk' st' now' b a) by assumption.
+    apply vmerge_comm.
+Qed.
+
+(** the direction the property asks for *)
+Theorem merge_changed_sound sk st now v o :
+  VVin v -> CapOK (fst (view_merge sk st now v o)) ->
+  vw_members (fst (view_merge sk st now v o)) <> vw_members v \/
+  (exists k, vget (vw_vv (fst (view_merge sk st now v o))) k <> vget (vw_vv v) k) ->
+  snd (view_merge sk st now v o) = true.
+Proof.
+  intros Hin Hcap Hd. apply (merge_changed_exact sk st now v o Hin Hcap).
+  destruct Hd as [Hd|[k Hk]]; [left; exact Hd|right; left]. intros Hq. apply Hk. apply Hq.
+Qed.
+
+(** * Packaged statements used by Properties/C17.v *)
+
+Lemma isnewer_strict_order :
+  (forall s, isnewer s s = false) /\
+  (forall n o, isnewer n o = true -> isnewer o n = false) /\
+  (forall a b c, ns_id a = ns_id b -> ns_id b = ns_id c -> wf_state a -> wf_state b -> wf_state c ->
+                 isnewer a b = true -> isnewer b c = true -> isnewer a c = true).
+Proof. split; [exact isnewer_irrefl|split; [exact isnewer_asym|exact isnewer_wf_trans]]. Qed.
+
+Lemma isnewer_cycle_exists :
+  exists a b c, ns_id a = ns_id b /\ ns_id b = ns_id c /\
+    isnewer a b = true /\ isnewer b c = true /\ isnewer c a = true.
+Proof. exists cyc_a, cyc_b, cyc_c. vm_compute. auto. Qed.
+
+Lemma wf_invariant :
+  (forall id addr now, wf_state (new_node_state id addr now)) /\
+  (forall s st, wf_state s -> wf_state (ns_set_status s st)) /\
+  (forall now maxent, WF (new_view now maxent) /\ VVin (new_view now maxent)) /\
+  (forall v s, WF v -> wf_state s -> WF (view_add v s)) /\
+  (forall v s, VVin v -> VVin (view_add v s)) /\
+  (forall v id, WF v -> WF (view_remove v id)) /\
+  (forall v id, VVin v -> vw_members (view_remove v id) <> ∅ -> VVin (view_remove v id)) /\
+  (forall v id, WF v -> WF (view_inc v id)) /\
+  (forall v id, VVin v -> is_Some (vw_members v !! id) -> VVin (view_inc v id)) /\
+  (forall v id st, WF v -> WF (view_set_status v id st)) /\
+  (forall v id st, VVin v -> VVin (view_set_status v id st)) /\
+  (forall self v now, WF v -> wf_state self ->
+      wf_state (fst (view_rejoin self v now)) /\ WF (snd (view_rejoin self v now))) /\
+  (forall self v now, VVin v -> VVin (snd (view_rejoin self v now))) /\
+  (forall sk st now v o, WF v -> WF o -> WF (fst (view_merge sk st now v o))) /\
+  (forall sk st now v o, VVin v -> VVin o -> VVin (fst (view_merge sk st now v o))).
+Proof.
+  split; [exact wf_new_node_state|]. split; [exact wf_set_status|].
+  split; [intros now maxent; split; [apply WF_new|apply VVin_new]|].
+  split; [exact WF_add|]. split; [exact VVin_add|]. split; [exact WF_remove|]. split; [exact VVin_remove|].
+  split; [exact WF_inc|]. split; [exact VVin_inc|]. split; [exact WF_set_status|]. split; [exact VVin_set_status|].
+  split; [intros self v now Hv Hs; split; [apply wf_rejoin_state; assumption|apply WF_rejoin; assumption]|].
+  split; [exact VVin_rejoin|]. split; [exact WF_merge|exact VVin_merge].
+Qed.
+
+Lemma proj_merge_pointwise sk st now v o k :
+  WF v -> WF o ->
+  proj (fst (view_merge sk st now v o)) !! k =
+  match proj v !! k, proj o !! k with
+  | Some x, Some y => Some (inc_max x y)
+  | Some x, None => Some x
+  | None, Some y => Some y
+  | None, None => None
+  end.
+Proof. intros Hv Ho. rewrite proj_merge by assumption. apply pjoin_lookup. Qed.
+
+Lemma meval_union_newest e k :
+  Forall WF (mleaves e) ->
+  (proj (meval e) !! k = None <-> (forall v, v ∈ mleaves e -> proj v !! k = None)) /\
+  (forall p, proj (meval e) !! k = Some p ->
+     (exists v, v ∈ mleaves e /\ proj v !! k = Some p) /\
+     (forall v q, v ∈ mleaves e -> proj v !! k = Some q -> inc_lt p q = false)).
+Proof.
+  intros H. rewrite (proj2 (meval_spec e H)). split; [apply pjoin_all_none|intros p; apply pjoin_all_some].
+Qed.
+
+Lemma vv_entry_monotone_refuted :
+  exists v o k, reach v /\ reach o /\ is_Some (vw_members v !! k) /\
+    vget (vw_vv (fst (view_merge 0 0 0 v o))) k < vget (vw_vv v) k.
+Proof.
+  destruct vv_entry_lowered_when_cap_exceeded as (v & o & k & H1 & H2 & H3 & H4 & _).
+  exists v, o, k. auto.
+Qed.
+
+Lemma changed_sound_refuted :
+  exists v o k, reach v /\ reach o /\
+    vget (vw_vv (fst (view_merge 0 0 0 v o))) k <> vget (vw_vv v) k /\
+    snd (view_merge 0 0 0 v o) = false.
+Proof.
+  destruct vv_entry_lowered_when_cap_exceeded as (v & o & k & H1 & H2 & H3 & H4 & H5 & _).
+  exists v, o, k. repeat split; try assumption. lia.
+Qed.
